@@ -165,6 +165,146 @@ def atom_trees():
     return out
 
 
+def long_chain_trees():
+    """prefix operator × postfix chains of length 4 and 5 over {call(), call(k), .fld, .0} on one flexible and
+    one rigid primary expression (lengths 1..3 on every primary expression are in atom_trees): every sequence of
+    node kinds that a pending postfix operation can be handed through, four and five nodes deep"""
+    import itertools
+    links = ["call0", "call1", "field", "proj"]
+    def apply(t, l, k):
+        if l == "call0": return ["c", t]
+        if l == "call1": return ["c", t, ["v", "k%d" % k]]
+        if l == "field": return ["f", t, "fld%d" % k]
+        return ["p", t, str(k % 3)]
+    out = []
+    for name in ("$id", "#int"):
+        if name not in ATOMS:
+            continue
+        atom = ["i", name] if name[0] == "#" else ["v", name]
+        for n in (4, 5):
+            for chain in itertools.product(links, repeat=n):
+                if name[0] == "#" and chain[0].startswith("call"):
+                    continue
+                t = atom
+                for k, l in enumerate(chain):
+                    t = apply(t, l, k)
+                if n == 4:
+                    combos = [((), "alone")] + [(pre, c) for pre in (("neg",), ("not",), ("neg", "not"))
+                                                for c in ("alone", "left", "right", "arg")]
+                else:
+                    combos = [(("neg",), "alone"), (("not",), "alone")]
+                for pre, ctxk in combos:
+                    u = t
+                    for o in reversed(pre):
+                        u = ["u", o, u]
+                    w = {"alone": u, "left": ["b", "add", u, ["v", "z"]], "right": ["b", "mul", ["v", "z"], u],
+                         "arg": ["c", ["v", "g"], u]}[ctxk]
+                    out.append((sx_text(w), name, "/".join(chain), "".join(p[0] for p in pre) or "-", ctxk))
+    return out
+
+
+# ------------------------------------------------------------------ host positions
+# every place of the grammar where an expression is read (crates/parser: let, statement, block tail, `if` /
+# `while` condition and branches, `match` scrutinee and arms, closure bodies, array / tuple / struct-literal
+# elements, call / method / constructor arguments, parentheses, `go`, bodies of functions / methods / generic
+# functions). The word HOLE is replaced by the expression text.
+_HOST_PRE = "enum Ctor { Foo(int32), Bar }\nstruct Point { x: int32, y: int32 }\n"
+def _host_fn(body):
+    return _HOST_PRE + "fn t() -> unit {\n" + body + "\n}\n"
+HOSTS = [
+    ("let", _host_fn("    let r = HOLE ;\n    ( )")),           # the base host: the position the tree streams use
+    ("let-annotated", _host_fn("    let r : int32 = HOLE ;\n    ( )")),
+    ("let-tuple-pattern", _host_fn("    let ( p , q ) = HOLE ;\n    ( )")),
+    ("statement", _host_fn("    HOLE ;\n    ( )")),
+    ("statement-second", _host_fn("    let q = 1 ;\n    HOLE ;\n    ( )")),
+    ("block-tail", _host_fn("    let q = 1 ;\n    HOLE")),
+    ("body-only", _host_fn("    HOLE")),
+    ("if-cond", _host_fn("    let r = if HOLE { a } else { b } ;\n    ( )")),
+    ("if-then-block", _host_fn("    let r = if c { HOLE } else { b } ;\n    ( )")),
+    ("if-else-block", _host_fn("    let r = if c { a } else { HOLE } ;\n    ( )")),
+    ("if-else-expr", _host_fn("    let r = if c { a } else HOLE ;\n    ( )")),
+    ("match-scrutinee", _host_fn("    let r = match HOLE { Foo ( q ) => q , _ => 0 } ;\n    ( )")),
+    ("match-arm", _host_fn("    let r = match s { Foo ( q ) => HOLE , _ => 0 } ;\n    ( )")),
+    ("match-arm-last", _host_fn("    let r = match s { _ => HOLE } ;\n    ( )")),
+    ("match-arm-block", _host_fn("    let r = match s { _ => { HOLE } } ;\n    ( )")),
+    ("while-cond", _host_fn("    while HOLE { a } ;\n    ( )")),
+    ("while-body", _host_fn("    while c { HOLE } ;\n    ( )")),
+    ("while-body-statement", _host_fn("    let r = ( while c { HOLE ; ( ) } ) ;\n    ( )")),
+    ("closure-body", _host_fn("    let r = | q | HOLE ;\n    ( )")),
+    ("closure-body-block", _host_fn("    let r = | q | { HOLE } ;\n    ( )")),
+    ("closure-noparams", _host_fn("    let r = || HOLE ;\n    ( )")),
+    ("closure-typed", _host_fn("    let r = | q : int32 | HOLE ;\n    ( )")),
+    ("array-only", _host_fn("    let r = [ HOLE ] ;\n    ( )")),
+    ("array-middle", _host_fn("    let r = [ a , HOLE , b ] ;\n    ( )")),
+    ("tuple-first", _host_fn("    let r = ( HOLE , b ) ;\n    ( )")),
+    ("tuple-last", _host_fn("    let r = ( a , HOLE ) ;\n    ( )")),
+    ("struct-field", _host_fn("    let r = Point { x : HOLE , y : 2 } ;\n    ( )")),
+    ("struct-field-last", _host_fn("    let r = Point { x : 1 , y : HOLE } ;\n    ( )")),
+    ("arg-only", _host_fn("    let r = g ( HOLE ) ;\n    ( )")),
+    ("arg-second", _host_fn("    let r = g ( a , HOLE ) ;\n    ( )")),
+    ("arg-trailing-comma", _host_fn("    let r = g ( HOLE , ) ;\n    ( )")),
+    ("method-arg", _host_fn("    let r = o . m ( HOLE ) ;\n    ( )")),
+    ("ctor-arg", _host_fn("    let r = Foo ( HOLE ) ;\n    ( )")),
+    ("path-ctor-arg", _host_fn("    let r = Ctor :: Foo ( HOLE ) ;\n    ( )")),
+    ("paren", _host_fn("    let r = ( HOLE ) ;\n    ( )")),
+    ("paren-paren", _host_fn("    let r = ( ( HOLE ) ) ;\n    ( )")),
+    ("go", _host_fn("    go HOLE ;\n    ( )")),
+    ("impl-method", _HOST_PRE + "impl Ctor {\n    fn m ( self : Ctor ) -> unit {\n        let r = HOLE ;\n        ( )\n    }\n}\n"),
+    ("trait-impl-method", _HOST_PRE + "trait Tr { fn m ( Self ) -> unit ; }\nimpl Tr for Ctor {\n    fn m ( self : Ctor ) -> unit {\n        let r = HOLE ;\n        ( )\n    }\n}\n"),
+    ("generic-fn", _HOST_PRE + "fn t [ T ] ( z : T ) -> unit {\n    let r = HOLE ;\n    ( )\n}\n"),
+    ("closure-in-arg-in-if", _host_fn("    let r = if c { g ( | q | HOLE ) } else { b } ;\n    ( )")),
+]
+
+def host_positions(ctx, texts):
+    """texts: list of (id, expression text, tree sexp text or None, stream). Oracle on the implementation alone:
+    an expression text is read the same way wherever an expression may stand — the whole file lowered from
+    host[text] is the file lowered from host[`hole__`] with the `hole__` expression replaced by what the text is
+    read as in the base host (`let r = …;`, the position whose reading the tree streams compare with the tree),
+    and a text rejected there is rejected everywhere. Returns coverage."""
+    f = os.path.join(ctx.run_dir, "c11.hosts.in.tsv")
+    esc = lambda t: t.replace("\\", "\\\\").replace("\n", "\\n").replace("\t", "\\t").replace("\r", "\\r")
+    with open(f, "w") as fh:
+        for name, tpl in HOSTS:
+            fh.write(f"H\t{name}\t{esc(tpl)}\n")
+        for cid, text, _, _ in texts:
+            fh.write(f"T\t{cid}\t{text}\n")
+    ok, out = ctx.gv("c11", ["hosts", "--file", f])
+    rows = vlib.read_tsv(os.path.join(ctx.run_dir, "c11.hosts.tsv")) if ok else []
+    info = {cid: (text, tree, stream) for cid, text, tree, stream in texts}
+    live, n_read, n_ok, n_texts, n_rej = [], 0, 0, 0, 0
+    per_stream = {}
+    for r in rows:
+        if r[0] == "#HOSTS":
+            live = r[1].split(",") if len(r) > 1 and r[1] else []
+        elif len(r) >= 3 and r[1] == "HOSTBAD":
+            ctx.broken_ties.append(("host positions", f"host `{r[0]}` does not read with an identifier in the hole: {vlib.unesc(r[2])[:300]}"))
+        elif len(r) >= 4 and r[1] == "HOSTS":
+            n_texts += 1
+            n_rej += r[2].startswith(("ERR:", "PANIC:"))
+            n_ok += int(r[3])
+            st = info.get(r[0], ("", None, "?"))[2]
+            per_stream[st] = per_stream.get(st, 0) + 1
+        elif len(r) >= 6 and r[1] == "HOSTFAIL":
+            text, tree, stream = info.get(r[0], ("", None, "?"))
+            observed, expected = vlib.unesc(r[4]), vlib.unesc(r[5])
+            rej_o, rej_e = observed.startswith(("ERR:", "PANIC:")), expected.startswith(("ERR:", "PANIC:"))
+            outcome = "rejected-only-here" if rej_o and not rej_e else "accepted-only-here" if rej_e and not rej_o else "read-differently"
+            ctx.report({"oracle": "host-position", "host": r[2], "outcome": outcome},
+                       "an expression text is not read the same way in every position where an expression may stand "
+                       "(compared with its reading as the initialiser of a `let`)",
+                       {"id": r[0], "host": r[2], "text": text, "tree": tree or "", "stream": stream,
+                        "source": vlib.unesc(r[3]), "observed_reading(from the first difference)": observed,
+                        "expected_reading(host with the `let` reading substituted)": expected})
+    n_read = n_texts * len(live)
+    if ok and (len(live) != len(HOSTS) or n_texts != len(texts)):
+        ctx.broken_ties.append(("host positions", f"{len(live)}/{len(HOSTS)} hosts usable, {n_texts}/{len(texts)} texts answered"))
+    return {"hosts": live, "texts": n_texts, "texts_rejected_everywhere": n_rej, "readings": n_read, "readings_ok": n_ok,
+            "texts_by_stream": per_stream,
+            "rule": "one reading = one text in one host position, parsed and lowered by the real parse_ast_file; ok = the "
+                    "lowered file equals the file lowered with an identifier in the hole, with that identifier's expression "
+                    "replaced by the reading of the text in the base host `let r = …;`"}
+
+
 class Round:
     """one batch: trees → model print (+ model parse) → real parse of three renderings"""
     def __init__(self, ctx, tag, with_full=False):
@@ -468,7 +608,7 @@ def run(ctx):
         rp = json.load(open(ctx.replay))
         items = []
         for i, c in enumerate(rp.get("cases", [])):
-            if "tree" in c:
+            if c.get("tree"):
                 items.append((f"r{i}", c["tree"], c.get("given_text")))
         streams = {cid: "replay" for cid, _, _ in items}
         kinds = {cid: "replay" for cid, _, _ in items}
@@ -488,6 +628,12 @@ def run(ctx):
             items.append((cid, tree, None))
             streams[cid] = "atoms"
             kinds[cid] = "atom" + name
+            atom_info[cid] = (name, chain, pre, ctxk)
+        for k, (tree, name, chain, pre, ctxk) in enumerate(long_chain_trees()):
+            cid = f"l{k}"
+            items.append((cid, tree, None))
+            streams[cid] = "chains"
+            kinds[cid] = "chain%d" % (chain.count("/") + 1)
             atom_info[cid] = (name, chain, pre, ctxk)
     rnd = Round(ctx, "main", with_full=True)
     res = rnd.run(items) if (items and have_model) else {}
@@ -582,7 +728,37 @@ def run(ctx):
                                    "expected_tree": r["expect"], "variant": variant, "observed_parse": real,
                                    "model_parse": r["model"], "minimal_tree": sx_text(small),
                                    "source": r["src"].get(variant, "")})
-    ctx.violations.sort(key=lambda v: len(v[2].get("tree", "")))
+    # ---------------------------------------------------------------- host positions
+    host_cov = {}
+    host_texts = []
+    if ctx.replay:
+        for i, c in enumerate(rp.get("cases", [])):
+            if "host" in c and "text" in c:
+                host_texts.append((f"h{i}", c["text"], c.get("tree") or None, "replay"))
+    else:
+        quota = {"single": 10**6, "pairs": 10**6, "lit-operand": 10**6, "lit-receiver": 10**6,
+                 "random": 2500 if ctx.tier == "thorough" else 250, "parens": 1500 if ctx.tier == "thorough" else 150}
+        taken = {}
+        for cid, tree, given in items:
+            r = res.get(cid)
+            if not r or not r["real"]:
+                continue
+            st = streams[cid]
+            if st in ("atoms", "chains"):
+                name, chain, pre, ctxk = atom_info[cid]
+                # every prefix × every chain of length 1..4 on the identifier, every primary expression under `-` with
+                # chains of length ≤ 2 (thorough: all of them)
+                want = ctxk == "alone" and ((name == "$id" and chain.count("/") <= 3) or (pre == "n" and chain.count("/") <= 1)
+                                            or ctx.tier == "thorough")
+            else:
+                want = taken.get(st, 0) < quota.get(st, 0)
+            if want:
+                taken[st] = taken.get(st, 0) + 1
+                host_texts.append((cid, subst_text(r["text"]), tree, st))
+    if host_texts:
+        host_cov = host_positions(ctx, host_texts)
+        n_eval += host_cov.get("readings", 0)
+    ctx.violations.sort(key=lambda v: (len(v[2].get("tree", "")), len(v[2].get("text", ""))))
 
     # ---------------------------------------------------------------- literals
     n_lit = n_lit_ok = n_lit_tie = 0
@@ -701,6 +877,7 @@ def run(ctx):
         "oracle_tree_roundtrips_ok": n_oracle_ok, "tie_model_equals_real": n_tie_ok,
         "oracle_min_vs_full_parentheses": n_full, "oracle_min_vs_full_parentheses_ok": n_full_ok,
         "primary_expression_atoms": {n: a["spelling"] for n, a in ATOMS.items()},
+        "host_positions": host_cov,
         "model_instances_of_parse_print": n_model_thm_ok,
         "literals": n_lit, "literal_values_ok": n_lit_ok, "literal_tie_ok": n_lit_tie, "literal_classes": lit_classes,
         "tight_rendering": getattr(rnd, "tight_note", ""),
@@ -711,6 +888,7 @@ def run(ctx):
         "impl_oracle_failures": len(ctx.violations) + sum(h["count"] for h in ctx.known_hits),
         "model_diffs": (n_eval - lower_cov.get("lower_texts", 0) - n_full - n_lit - usw.get("programs", 0) - n_tie_ok) + (n_str - n_lit_tie)
                        + (lower_cov.get("lower_texts", 0) - lower_cov.get("lower_model_equals_real", 0))
+        "model_diffs": (n_eval - n_full - n_lit - usw.get("programs", 0) - host_cov.get("readings", 0) - n_tie_ok) + (n_str - n_lit_tie)
                        + (usw.get("tie_total", 0) - usw.get("tie_ok", 0)),
     }
     cov.update(cov0)
